@@ -223,3 +223,25 @@ Lemma topk_length_le n l : (length (topk (Some n) l) <= n)%nat.
 Proof. cbn. rewrite firstn_length. lia. Qed.
 Lemma topk_NoDup k l : NoDup l -> NoDup (topk k l).
 Proof. destruct k; cbn; [apply NoDup_firstn|auto]. Qed.
+
+(* ---- a tabulated discount whose clamped values never decrease ---- *)
+Lemma adj_le_nth tbl : adj_le tbl = true ->
+  forall i, Qmaxq (nth i tbl (last tbl 1)) 1 <= Qmaxq (nth (S i) tbl (last tbl 1)) 1.
+Proof.
+  induction tbl as [|a tbl IH]; intros H i.
+  - destruct i; cbn; lra.
+  - destruct tbl as [|b tbl].
+    + destruct i as [|[|i]]; cbn; lra.
+    + cbn [adj_le] in H. apply andb_true_iff in H. destruct H as [H1 H2].
+      change (last (a :: b :: tbl) 1) with (last (b :: tbl) 1).
+      destruct i as [|i]; [cbn [nth]; apply Qle_bool_iff, H1|].
+      cbn [nth]. apply (IH H2 i).
+Qed.
+
+Lemma tbl_disc_ext_mono tbl : adj_le tbl = true -> disc_mono (tbl_disc_ext tbl).
+Proof.
+  intros H r. unfold tbl_disc_ext. destruct r as [|r].
+  - cbn [Nat.sub]. lra.
+  - replace (S r - 1)%nat with r by lia. replace (S (S r) - 1)%nat with (S r) by lia.
+    apply adj_le_nth, H.
+Qed.
